@@ -395,6 +395,39 @@ if st == "ok":
         rep.fail("raised::shared-comparison", f"{type(e).__name__}: {e}", {"schedule": "nested"})
     elif rows != ref:
         rep.fail("shared-comparison::nested", f"a comparison used twice in q1 and once in q2, q2 evaluated completely after every result of q1: q1 gives {rows}, alone {ref}", {"schedule": "nested"})
+# one sub-expression that is the WHOLE condition of one query and an operand of a comparison in another query, evaluated one
+# after the other in either order (each reference is a query built alone from fresh nodes)
+def whole_condition_and_operand(kind, build):
+    items = [Item(1), Item(0), Item(2), Item(0)]
+    x = let(Item, items)
+    node = {"attribute": lambda: x.a, "call": lambda: remainder(x.a), "variable": lambda: x}[kind]()
+    qs = {}
+    if "condition" in build:
+        qs["condition"] = an(entity(x, node))
+    if "operand" in build:
+        qs["operand"] = an(entity(x, (node == 0) if kind != "variable" else (node != None)))      # noqa: E711
+    return qs
+
+
+for kind_ in ("attribute", "call", "variable"):
+    alone = {}
+    for role_ in ("condition", "operand"):
+        st, r_ = guarded(lambda: [r.a for r in whole_condition_and_operand(kind_, [role_])[role_].evaluate()])
+        alone[role_] = r_ if st == "ok" else None
+    for order_ in (("condition", "operand"), ("operand", "condition"), ("condition", "operand", "condition")):
+        if any(alone[r] is None for r in order_):
+            continue
+        qs_ = whole_condition_and_operand(kind_, ["condition", "operand"])
+        rep.case(("whole-condition-and-operand", kind_, order_))
+        for role_ in order_:
+            st, got = guarded(lambda: [r.a for r in qs_[role_].evaluate()])
+            if st == "exc":
+                rep.fail(f"raised::whole-condition-and-operand::{kind_}", f"{type(got).__name__}: {got}", {"kind": kind_, "order": list(order_)})
+                break
+            if got != alone[role_]:
+                rep.fail(f"whole-condition-and-operand::{kind_}::{role_}", f"one {kind_} node is the whole condition of one query and an operand in another, evaluated in the order {order_}: "
+                         f"the query where it is the {role_} gives {got}, built alone {alone[role_]}", {"kind": kind_, "order": list(order_)})
+                break
 # a rule tree that grows between evaluations (the ripple-down workflow: evaluate, look, add an exception, evaluate again)
 for name in RULES:
     if name == "base":
